@@ -595,6 +595,19 @@ def spooled_written(f):
     return file_stored(f._path)
 
 
+def _m_spooled_written(interp, args, kwargs):
+    """proof level: the ghost contents, WITHOUT the flush the native observation needs -- an observation must not
+    change the (ghost) state it observes: whether the file object has been flushed matters when a child process
+    is given the file (T14)"""
+    f = _res(interp, args[0])
+    if f._path is None:
+        return interp.call(sio_value, [f._file])
+    return interp.call(file_stored, [f._path])
+
+
+M.model(spooled_written, _m_spooled_written)
+
+
 def spooled_position(f):
     """the position, in characters of what has been written"""
     return sio_position(f._file) if f._path is None else file_position(f._file)
@@ -606,6 +619,14 @@ def spooled_ok(f):
     if f._path is None:
         return len(sio_value(f._file)) <= f._max_size and sio_position(f._file) == len(sio_value(f._file))
     return is_file_at(f._file, f._path) and positioned_at_end(f._file)
+
+
+def nothing_buffered(fileobj):
+    """everything written through the file object has reached the file (ghost; not observable natively)"""
+    return True
+
+
+M.model(nothing_buffered, lambda interp, args, kwargs: textio.nothing_buffered(interp, _res(interp, args[0])))
 
 
 def _at_end(f):
@@ -675,6 +696,8 @@ def _havoc_spooled(interp, f, tag, to_disk=False):
         textio.set_stored(interp, p, t)
         f._path = p
         f._file = _new_disk_file(interp, tag + '._file', p)
+        # (clause 'rolled over from memory: nothing is left in the buffer of the new file object' of _rollover)
+        f._file._pv_ghost['dirty'] = False
         any_pos(f._file, t)
 
 
@@ -698,6 +721,9 @@ M.contract(_P_STF + '._rollover', params=dict(self=Union(SPOOLED_MEM_ANY, SPOOLE
                'positioned at the character the buffer was positioned at (after sequential writing: the end)':
                    lambda self, old: spooled_position(self) == old[3],
                'size unchanged': lambda self, old: self._max_size == old[2],
+               # (T14) the final seek flushes: a child process that is given the file next writes AFTER the text
+               'rolled over from memory: nothing is left in the buffer of the new file object':
+                   lambda self, old: old[1] is not None or nothing_buffered(self._file),
            },
            replay=lambda model, rf: replays_c14.source('rollover_position'),
            raises_only=())
@@ -1267,14 +1293,14 @@ def _inv_first_line(self, yielded, last_line_wo_ending_new_line, _i, _i0):
 
 
 def _inv_other_lines(self, yielded, last_line_wo_ending_new_line, _i, _n, _xs, _i0):
-    return join_of(yielded) + _pending(last_line_wo_ending_new_line) \
+    return text_spec.line_body_over_concat_off() and join_of(yielded) + _pending(last_line_wo_ending_new_line) \
         == prefix_join(part_txts(self._parts), _i0) + prefix_join(_xs, _i) \
         and (_i == 0 or last_line_wo_ending_new_line is None or _i == _n) \
         and _pending_ok(last_line_wo_ending_new_line) and _complete_lines(yielded)
 
 
 def _inv_last_other_lines(self, yielded, _i, _n, _xs):
-    return join_of(yielded) == prefix_join(part_txts(self._parts), len(self._parts) - 1) + prefix_join(_xs, _i) \
+    return text_spec.line_body_over_concat_off() and join_of(yielded) == prefix_join(part_txts(self._parts), len(self._parts) - 1) + prefix_join(_xs, _i) \
         and (_i == _n or len(yielded) == 0 or yielded[len(yielded) - 1].endswith(NL)) \
         and forall_range(0, len(yielded), lambda j: is_line(yielded[j])) \
         and forall_range(0, len(yielded) - 1, lambda j: yielded[j].endswith(NL))
@@ -1286,7 +1312,7 @@ _LOCALS = {'non_last_part': 'local', 'non_last_part_lines': 'local', 'first_line
 # The deductive proof of `_lines_iter` (10 obligations, all discharged) takes about 3 minutes, most of it in one
 # worker: it is part of the THOROUGH tier only.  In the quick tier the lines of a concatenation are covered by the
 # labelled bounded stand-in at the end of this module only (which runs in both tiers).
-_LINES_ITER_PROOF = os.environ.get('VERIF_TIER') == 'thorough' or bool(os.environ.get('C14_LINES_ITER_PROOF'))
+_LINES_ITER_PROOF = not os.environ.get('C14_NO_LINES_ITER_PROOF')
 if _LINES_ITER_PROOF:
     M.contract(_P_CC + '._lines_iter', params=dict(self=CONCAT_CONTENTS), yields=ListOf(Str),
                ensures={'lines == split_nl(txt)': lambda self, yielded: is_split_nl(yielded, txt_of(self))},
